@@ -93,6 +93,40 @@ func stakePeriodClass(rng *rand.Rand, now int64) (int64, string) {
 	return c.t, c.name
 }
 
+// the longest preimage an Unlock call can carry in a block's data (selector, id, offset, length, the value padded to words)
+const htlcMaxPreimageInBlock = (constants.MaxDataLength - 4 - 3*32) / 32 * 32
+
+// (KeyMaxSize, length of the value the hash lock is made of, class name): KeyMaxSize over the whole uint8 range, the length
+// at 255 / 256, k bytes above one or several periods of 256 with k below / at / above KeyMaxSize, 257..300, 512, and up to
+// what fits a block
+func longPreimageClass(rng *rand.Rand) (uint8, int, string) {
+	kmax := []int{0, 1, 2, 31, 32, 33, 64, 127, 128, 200, 254, 255, rng.Intn(256), rng.Intn(256), rng.Intn(256), rng.Intn(64)}[rng.Intn(16)]
+	periods := 256 * []int{1, 1, 1, 1, 2, 2, 3, 4, 16, 63}[rng.Intn(10)]
+	below := 0
+	if kmax > 0 {
+		below = rng.Intn(kmax)
+	}
+	type lc struct {
+		n    int
+		name string
+	}
+	cs := []lc{
+		{255, "255"}, {256, "256"}, {256, "256"}, {257 + rng.Intn(44), "257..300"}, {257 + rng.Intn(44), "257..300"},
+		{256 + kmax, "256+keymax"}, {256 + kmax, "256+keymax"}, {256 + kmax + 1, "256+keymax+1"}, {256 + below, "256+below-keymax"}, {256 + below, "256+below-keymax"},
+		{256 + kmax - 1, "256+keymax-1"},
+		{512, "512"}, {periods, "whole-periods"}, {periods + kmax, "periods+keymax"}, {periods + below, "periods+below-keymax"}, {periods + kmax + 1, "periods+keymax+1"},
+		{1024 + rng.Intn(3000), "1024..4023"}, {htlcMaxPreimageInBlock, "fills-the-block"}, {htlcMaxPreimageInBlock - 1 - rng.Intn(300), "nearly-fills-the-block"},
+	}
+	c := cs[rng.Intn(len(cs))]
+	if c.n < 255 {
+		c.n, c.name = 256, "256"
+	}
+	if c.n > htlcMaxPreimageInBlock {
+		c.n, c.name = htlcMaxPreimageInBlock, "fills-the-block"
+	}
+	return uint8(kmax), c.n, c.name + fmt.Sprintf(":wraps-below-keymax=%v", c.n%256 <= kmax)
+}
+
 var htlcHashTypes = []uint8{definition.HashTypeSHA3, definition.HashTypeSHA256, 2, 3, 4, 127, 128, 254, 255}
 var htlcLockLens = []int{0, 0, 1, 16, 20, 31, 32, 33, 64} // the empty lock twice: the edge every length test has
 
@@ -142,9 +176,20 @@ func (w *world) boundaryHtlc() {
 	now := w.now()
 	// which dimensions leave the ordinary: mostly ONE of hash lock (type x length) / expiration / key size, so that each
 	// rule decides on its own; now and then all of them together
-	mode := []string{"lock", "lock", "lock", "expiration", "expiration", "key-size", "all"}[rng.Intn(7)]
+	mode := []string{"lock", "lock", "lock", "expiration", "expiration", "key-size", "all", "long-preimage", "long-preimage"}[rng.Intn(9)]
 	w.out.Count("lockbounds:htlc-create:mode=" + mode)
-	pre := make([]byte, []int{0, 1, 32, 33, 255}[rng.Intn(5)])
+	pre := make([]byte, []int{0, 1, 32, 33, 255, 256, 288}[rng.Intn(7)])
+	longKmax := uint8(0)
+	if mode == "long-preimage" {
+		// the hash lock is the digest of a value LONGER than any key size an entry can allow (KeyMaxSize is a uint8), the
+		// key size anything from 0 to 255: lengths at the edge of the type, one period of it above the allowed size, and up to
+		// what a block's data holds. A well-formed lock that nothing admissible opens before the expiration.
+		var cls string
+		var n int
+		longKmax, n, cls = longPreimageClass(rng)
+		pre = make([]byte, n)
+		w.out.Count("lockbounds:htlc-long-preimage:" + cls)
+	}
 	rng.Read(pre)
 	ht, n := uint8(rng.Intn(2)), 32
 	if mode == "lock" || mode == "all" {
@@ -186,6 +231,9 @@ func (w *world) boundaryHtlc() {
 		exp, expCls = e.t, e.name
 	}
 	kmax := uint8(255)
+	if mode == "long-preimage" {
+		kmax = longKmax
+	}
 	if mode == "key-size" || (mode == "all" && rng.Intn(2) == 0) { // around the length of the preimage, and the edges of uint8
 		kmax = uint8([]int{0, 1, len(pre) - 1, len(pre), len(pre) + 1, 31, 32, 33, 254, 255}[rng.Intn(10)])
 	}
@@ -232,6 +280,13 @@ func (w *world) boundaryHtlc() {
 	stranger := w.senders[rng.Intn(len(w.senders))]
 	if rng.Intn(3) == 0 {
 		w.settle()
+	}
+	if mode == "long-preimage" {
+		// exactly the value the lock was made of, by the hash-locked party (now and then by somebody else first)
+		if rng.Intn(4) == 0 {
+			unlock(stranger, pre)
+		}
+		unlock(hl, pre)
 	}
 	for i, k := 0, 1+rng.Intn(3); i < k; i++ {
 		switch rng.Intn(6) {
